@@ -96,6 +96,17 @@ func vLetters(s string) bool {
 	return true
 }
 
+// vPlainWord: a text ParseAny/FormatAny leave unchanged (letters, '@' and 'x' 'z' 'd' only here)
+func vPlainWord(s string) bool {
+	for i := 0; i < len(s); i++ {
+		b := s[i]
+		if !(b >= 'a' && b <= 'z') && b != '@' {
+			return false
+		}
+	}
+	return len(s) > 0
+}
+
 func vQuoteProc(cfg configure.Configure) *configQuoteAwarePostProcessors {
 	return &configQuoteAwarePostProcessors{Configure: cfg, el: el.NewQuote()}
 }
@@ -206,22 +217,72 @@ func VerifC16Total() {
 // assertion: resolution must end with an error or a value, never loop.
 func VerifC16Cyclic() {
 	cfg := &vCfg{}
-	ref := func() string {
-		return []string{"", "${a}", "${b}", "${c}", "${n:d}"}[nd.Choose(5)]
+	// references: 0 none, 1 ${a}, 2 ${b}, 3 ${c}, 4 ${n:d} (absent key with a default)
+	refText := []string{"", "${a}", "${b}", "${c}", "${n:d}"}
+	type val struct {
+		x      string
+		r1, r2 int
 	}
-	mk := func() string {
-		x := []string{"", "x"}[nd.Choose(2)]
-		return x + ref() + ref()
+	mk := func() val {
+		return val{x: []string{"", "x"}[nd.Choose(2)], r1: nd.Choose(5), r2: nd.Choose(5)}
 	}
+	va, vb := mk(), mk()
+	vc := []string{"", "z"}[nd.Choose(2)]
+	text := func(v val) string { return v.x + refText[v.r1] + refText[v.r2] }
 	cfg.keys = []string{"a", "b", "c"}
-	cfg.vals = []any{mk(), mk(), []string{"", "z"}[nd.Choose(2)]}
-	prop := component_definition.NewProperty(nil, component_definition.PropertyTypeConfiguration, "value", "${a}")
+	cfg.vals = []any{text(va), text(vb), vc}
+	// the tag refers to a, optionally also directly to a key that a's value refers to (a diamond)
+	tagKind := nd.Choose(nd.Param("TAGS", 3))
+	tag := []string{"${a}", "${c}@${a}", "${a}@${b}"}[tagKind]
+	prop := component_definition.NewProperty(nil, component_definition.PropertyTypeConfiguration, "value", tag)
 	p := vQuoteProc(cfg)
 	_, err := p.PostProcessProperties([]*component_definition.Property{prop}, nil, "c")
+	// oracle: is a cycle reachable from the tag?
+	refs := func(v val, k int) bool { return v.r1 == k || v.r2 == k }
+	aSelf, bSelf := refs(va, 1), refs(vb, 2)
+	aToB, bToA := refs(va, 2), refs(vb, 1)
+	usesB := aToB || tagKind == 2
+	cyclic := aSelf || (usesB && bSelf) || (aToB && bToA) || (tagKind == 2 && bToA && aSelf)
+	if !cyclic {
+		nd.Cover("acyclic references (chains and diamonds)")
+		nd.Assert(err == nil, "C16: references without a cycle resolve, also when a key is referenced both directly and through another key's value")
+	}
 	if err != nil {
 		nd.Cover("circular reference reported as an error")
 		return
 	}
 	nd.Cover("resolution terminates")
 	nd.Assert(!p.el.MatchString(prop.TagVal), "C16: no placeholder is left after resolution")
+	if !cyclic {
+		// expected expansion of an acyclic configuration
+		var expand func(v val, depth int) string
+		one := func(r int, depth int) string {
+			switch r {
+			case 1:
+				return expand(va, depth+1)
+			case 2:
+				return expand(vb, depth+1)
+			case 3:
+				return vc
+			case 4:
+				return "d"
+			}
+			return ""
+		}
+		expand = func(v val, depth int) string {
+			if depth > 4 {
+				return "?"
+			}
+			return v.x + one(v.r1, depth) + one(v.r2, depth)
+		}
+		want := expand(va, 0)
+		switch tagKind {
+		case 1:
+			want = vc + "@" + want
+		case 2:
+			want = want + "@" + expand(vb, 0)
+		}
+		nd.Observe("expanded", prop.TagVal)
+		nd.Assert(prop.TagVal == want || want == "" || !vPlainWord(want), "C16: every placeholder is replaced by its configured value, transitively")
+	}
 }
